@@ -16,7 +16,7 @@ every call site has no other caller, so its own body is dropped; an exported hel
 helper census.  Anything not inlined stays a `localcall` effect, which CEN-call reports (fail closed)."""
 import copy
 
-MAX_BLOCKS = 80
+MAX_BLOCKS = 600
 MAX_ROUNDS = 3
 # std traits implemented by the crate (Deref / Clone / From / Debug of Callbag and Message) are modelled by the alias tables and CEN-core
 SKIP_PREFIX = ("combine::Unwrap::", "combine::Combine::", "combine::IntoArcSource::")
@@ -55,7 +55,7 @@ def _calls(body):
                 yield blk, t, c, c["res"], False
 
 
-def eligible(bodies, parents, hid, callee, is_closure=False):
+def eligible(bodies, parents, hid, callee, is_closure=False, single_site=False):
     h = bodies.get(hid)
     if h is None:
         return False
@@ -70,7 +70,7 @@ def eligible(bodies, parents, hid, callee, is_closure=False):
         return False
     elif (callee.get("def") or "").startswith(SKIP_PREFIX) or callee.get("crate") in SKIP_CRATES:
         return False
-    if hid in parents:
+    if hid in parents and not single_site:
         return False
     if len(h["blocks"]) > MAX_BLOCKS:
         return False
@@ -126,6 +126,31 @@ def inline_into(caller, blk, t, h, is_closure=False):
         caller["blocks"].append(nbk)
 
 
+def fn_consts(x, acc):
+    """Function items used as values (operands), not as callees."""
+    if isinstance(x, dict):
+        c = x.get("const")
+        if isinstance(c, dict) and "fn" in c:
+            acc.add(c["fn"])
+        for v in x.values():
+            fn_consts(v, acc)
+    elif isinstance(x, list):
+        for v in x:
+            fn_consts(v, acc)
+
+
+def _descendants(raw, hid):
+    out = set()
+    grew = True
+    while grew:
+        grew = False
+        for b in raw["bodies"]:
+            if (b["parent"] == hid or b["parent"] in out) and b["id"] not in out:
+                out.add(b["id"])
+                grew = True
+    return out
+
+
 def inline_local_calls(raw):
     """Returns a list of (caller, helper) pairs that were inlined; mutates raw in place."""
     bodies = {b["id"]: b for b in raw["bodies"]}
@@ -136,14 +161,41 @@ def inline_local_calls(raw):
     pristine = {}
     done = []
     left = {}       # helper id -> call sites not inlined
+    moved = set()   # helpers with closures of their own, moved into their only caller
+    used_as_value = set()
+    for b in raw["bodies"]:
+        fn_consts(b["blocks"], used_as_value)
     for rnd in range(MAX_ROUNDS):
         changed = False
         left = {}
+        sites = {}
+        for b in raw["bodies"]:
+            for _, _, _, hid, _ in _calls(b):
+                sites[hid] = sites.get(hid, 0) + 1
         for caller in list(raw["bodies"]):
+            if caller["id"] in moved:
+                continue
             for blk, t, c, hid, is_cl in list(_calls(caller)):
                 if is_cl and (hid not in bodies or bodies[hid]["kind"] != "closure" or bodies[hid]["arg_count"] < 2
                               or own_file(bodies[hid]["span"]).startswith(("dep:tracing", "dep:log"))):
                     continue        # thunks and coroutines: not ours, and not a leftover either
+                # a private helper that builds closures of its own (a talkback constructor) can be moved into its only caller:
+                # every closure then still has exactly one construction site, and its lexical parent becomes the caller
+                single = (not is_cl and hid in parents and hid in bodies and sites.get(hid) == 1 and not bodies[hid].get("exported", True)
+                          and hid not in used_as_value and hid != caller["id"] and caller["id"] not in _descendants(raw, hid))
+                if single and eligible(bodies, parents, hid, c, False, True) and not any(True for _ in _calls(bodies[hid])):
+                    inline_into(caller, blk, t, bodies[hid], False)
+                    for b in raw["bodies"]:
+                        if b["parent"] == hid and b["kind"] in ("closure", "coroutine"):
+                            b["parent"] = caller["id"]
+                            b["reparented_from"] = hid
+                    raw["bodies"] = [b for b in raw["bodies"] if b["id"] != hid]
+                    moved.add(hid)
+                    parents.discard(hid)
+                    parents.add(caller["id"])
+                    done.append((caller["id"], hid))
+                    changed = True
+                    continue
                 if hid == caller["id"] or not eligible(bodies, parents, hid, c, is_cl):
                     left[hid] = left.get(hid, 0) + 1
                     continue
@@ -157,10 +209,11 @@ def inline_local_calls(raw):
                 changed = True
         if not changed:
             break
-    inlined = {h for _, h in done}
+    inlined = {h for _, h in done if h not in moved}
     drop = {h for h in inlined if bodies[h]["kind"] == "fn" and not bodies[h].get("exported", True) and not left.get(h)}
     raw["inlined_closures"] = sorted(h for h in inlined if bodies[h]["kind"] == "closure" and not left.get(h))
-    # a dropped helper that is still called from a body we keep must stay
+    # a helper that is also used as a value (`.map(helper)`, a fn pointer) still has callers we do not see: it stays
+    drop = {h for h in drop if h not in used_as_value}
     if drop:
         raw["bodies"] = [b for b in raw["bodies"] if b["id"] not in drop]
     raw["inlined"] = [{"caller": c, "helper": h, "dropped": h in drop} for c, h in done]
